@@ -287,22 +287,42 @@ PREDS['scan'] = (('t', 'r', 'N'), 't + r if t < N - r else (t - (N - r) if t < N
 PREDS['iscan'] = (('j', 'r', 'N'), 'j - r if (r <= j and j < N) else (j + (N - r) if j < r else j)')
 PREDS['anti'] = (('g', 'obs', 'N'), 'AcqSum(g, obs, N) % 2 == 1')
 
+# arithmetic of the scan order, stated once per iteration so that the invariant steps do not have to rediscover it:
+# the row visited at time jj is j, and j is visited exactly at time jj
+# the kernels' callees measure N from the row length; say once that this is the same N (spares the solver a division argument)
+_len_facts = [('assert', 'cols(gs_stb) // 2 == N and cols(gs_obs) // 2 == N'),
+              ('assert', "implies(not update, forall(i, 0, 2 * N, same(gs_stb[i], at('loop1.pre', gs_stb)[i])))")]
+_scan_facts = [('assert', '0 <= j < 2 * N and iscan(j, r, N) == jj and j == scan(jj, r, N)'),
+               ('assert', 'forall(i, 0, 2 * N, implies(i != j, iscan(i, r, N) != jj))')]
 _G0 = "at('loop1.pre', gs_stb)"
+_HG, _HU, _HP = "at('loop1.head', gs_stb)", "at('loop1.head', update)", "at('loop1.head', p)"
+_HPS, _HGA, _HPA = "at('loop1.head', ps_stb)", "at('loop1.head', ga)", "at('loop1.head', pa)"
 _obs = 'gs_obs[k]'
 _proj_inner = [
     'rows(gs_stb) == 2 * N', 'cols(gs_stb) == 2 * N', 'cols(gs_obs) == 2 * N', '0 <= k < L', '0 <= r <= N', 'bits2(gs_stb)',
     # pivot bookkeeping (positions are taken in scan order: iscan(i) is the time at which row i is visited)
     'implies(not update, p == 0 and not extend)',
-    'implies(not update, forall(i, 0, N + r, implies(iscan(i, r, N) < jj, not anti(%s[i], %s, N))))' % (_G0, _obs),
+    ('implies(not update, forall(i, 0, N + r, implies(iscan(i, r, N) < jj, not anti(%s[i], %s, N))))' % (_G0, _obs),
+     {'by': ['@head', '0 <= j < 2 * N and iscan(j, r, N) == jj', 'forall(i, 0, 2 * N, implies(i != j, iscan(i, r, N) != jj))',
+             'implies(not update, not %s)' % _HU, 'implies(not update and j < N + r, not anti(%s[j], %s, N))' % (_G0, _obs)]}),
     'implies(update, 0 <= p < N + r and iscan(p, r, N) < jj)',
     'implies(update, anti(%s[p], %s, N))' % (_G0, _obs),
     'implies(update, forall(i, 0, N + r, implies(iscan(i, r, N) < iscan(p, r, N), not anti(%s[i], %s, N))))' % (_G0, _obs),
     'implies(update, iff(extend, not (r <= p and p < N)))',
     # rows: visited after the pivot and anticommuting -> multiplied by the pivot row; everything else untouched
-    'forall(i, 0, 2 * N, '
-    'same(gs_stb[i], Xor(%s[i], %s[p])) '
-    'if (iscan(i, r, N) < jj and update and iscan(i, r, N) > iscan(p, r, N) and anti(%s[i], %s, N)) '
-    'else same(gs_stb[i], %s[i]))' % (_G0, _G0, _G0, _obs, _G0),
+    ('forall(i, 0, 2 * N, '
+     'same(gs_stb[i], Xor(%s[i], %s[p])) '
+     'if (iscan(i, r, N) < jj and update and iscan(i, r, N) > iscan(p, r, N) and anti(%s[i], %s, N)) '
+     'else same(gs_stb[i], %s[i]))' % (_G0, _G0, _G0, _obs, _G0),
+     # preservation, as an explicit case analysis of what one iteration does to row j (all other rows are untouched)
+     {'by': ['@head',
+             '0 <= j < 2 * N and iscan(j, r, N) == jj',
+             'forall(i, 0, 2 * N, implies(i != j, iscan(i, r, N) != jj and same(gs_stb[i], %s[i])))' % _HG,
+             'implies(%s, update and p == %s)' % (_HU, _HP),
+             'implies(%s, iscan(p, r, N) < jj)' % _HU,
+             'implies(not %s and update, p == j)' % _HU,
+             'implies(%s and anti(%s[j], %s, N), same(gs_stb[j], Xor(%s[j], %s[p])))' % (_HU, _G0, _obs, _G0, _G0),
+             'implies(not (%s and anti(%s[j], %s, N)), same(gs_stb[j], %s[j]))' % (_HU, _G0, _obs, _G0)]}),
 ]
 _gram_hints = [
     ('forall_lemma', [('i', '0', '2 * N'), ('l', '0', '2 * N')], 'acq_bilinear', ['%s[i]' % _G0, '%s[p0]' % _G0, '%s[l]' % _G0, 'N']),
@@ -322,7 +342,7 @@ def _gram_after_pivot(p, q):
             % (obs, p, G0, p, q, G0, G0, p, G0, obs, G0))
     return ('assert_from', 'gram(gs_stb, N)',
             ['gram(%s, N)' % G0, rows, '0 <= %s < 2 * N' % p, '%s == (%s + N if %s < N else %s - N)' % (q, p, p, p),
-             'anti(%s[%s], %s, N)' % (G0, p, obs), 'N >= 1'] + _subst_p(_gram_hints, p))
+             'anti(%s[%s], %s, N)' % (G0, p, obs), 'N >= 1'] + _subst_p(_gram_hints, p), ['%s < N' % p, '%s >= N' % p])
 
 
 def _swap_hints(K):
@@ -357,7 +377,7 @@ CONTRACTS[U + 'stabilizer_project'] = dict(
     loops={0: dict(var='k', invariant=['rows(gs_stb) == 2 * N', 'cols(gs_stb) == 2 * N', 'bits2(gs_stb)', 'gram(gs_stb, N)',
                                        '0 <= r <= N', 'cols(gs_obs) == 2 * N', 'r <= old(r)'],
                    ),
-           1: dict(var='jj', invariant=_proj_inner)},
+           1: dict(var='jj', invariant=_proj_inner, hints_end=_scan_facts, hints_head=_len_facts)},
     # ghost code before `if extend:` (the 6th if of the function): after the pivot replacement the Gram structure holds
     # again (bilinearity instances for the rows that were multiplied by the pivot); the swaps then only permute pairs
     hints=dict({'if5.before': [_gram_after_pivot('p', 'q')]}, **_swap_hints(5)),
@@ -378,13 +398,30 @@ _sel = 'DestabSel(%s, %s, r, N)' % (_G0, _obs)
 _meas_inner = _proj_inner + [
     'len(ps_stb) == 2 * N', 'len(ga) == 2 * N', 'len(out) == L', 'len(ps_obs) == L',
     # phases: stabilizer rows (index < N) that were multiplied by the pivot row carry the product phase, all others are untouched
-    'forall(i, 0, 2 * N, '
-    'ps_stb[i] == (%s[i] + %s[p] + IpowSum(%s[i], %s[p], N)) %% 4 '
-    'if (i < N and iscan(i, r, N) < jj and update and iscan(i, r, N) > iscan(p, r, N) and anti(%s[i], %s, N)) '
-    'else ps_stb[i] == %s[i])' % (_P0, _P0, _G0, _G0, _G0, _obs, _P0),
+    ('forall(i, 0, 2 * N, '
+     'ps_stb[i] == (%s[i] + %s[p] + IpowSum(%s[i], %s[p], N)) %% 4 '
+     'if (i < N and iscan(i, r, N) < jj and update and iscan(i, r, N) > iscan(p, r, N) and anti(%s[i], %s, N)) '
+     'else ps_stb[i] == %s[i])' % (_P0, _P0, _G0, _G0, _G0, _obs, _P0),
+     {'by': ['@head',
+             '0 <= j < 2 * N and iscan(j, r, N) == jj',
+             'forall(i, 0, 2 * N, implies(i != j, iscan(i, r, N) != jj and ps_stb[i] == %s[i]))' % _HPS,
+             'implies(%s, update and p == %s)' % (_HU, _HP),
+             'implies(%s, iscan(p, r, N) < jj)' % _HU,
+             'implies(not %s and update, p == j)' % _HU,
+             'implies(%s and anti(%s[j], %s, N) and j < N, ps_stb[j] == (%s[j] + %s[p] + IpowSum(%s[j], %s[p], N)) %% 4)'
+             % (_HU, _G0, _obs, _P0, _P0, _G0, _G0),
+             'implies(not (%s and anti(%s[j], %s, N) and j < N), ps_stb[j] == %s[j])' % (_HU, _G0, _obs, _P0)]}),
     # accumulation of the destabilizer-selected active stabilizers while no pivot has been found
-    'implies(not update, pa == OrdP(%s, %s, %s, jj - N, N))' % (_sel, _G0, _P0),
-    'implies(not update, forall(c, 0, 2 * N, ga[c] == OrdG(%s, %s, jj - N, c)))' % (_sel, _G0),
+    ('implies(not update, pa == OrdP(%s, %s, %s, jj - N, N))' % (_sel, _G0, _P0),
+     {'by': ['@head', 'implies(not update, not %s)' % _HU, 'j == scan(jj, r, N)', '0 <= r <= N', 'N >= 0',
+             'implies(not update and jj >= N + r and anti(%s[jj], %s, N), '
+             'pa == (%s + %s[jj - N] + IpowSum(OrdGRow(%s, %s, jj - N), %s[jj - N], N)) %% 4)' % (_G0, _obs, _HPA, _P0, _sel, _G0, _G0),
+             'implies(not update and not (jj >= N + r and anti(%s[jj], %s, N)), pa == %s)' % (_G0, _obs, _HPA)]}),
+    ('implies(not update, forall(c, 0, 2 * N, ga[c] == OrdG(%s, %s, jj - N, c)))' % (_sel, _G0),
+     {'by': ['@head', 'implies(not update, not %s)' % _HU, 'j == scan(jj, r, N)', '0 <= r <= N', 'N >= 0',
+             'implies(not update and jj >= N + r and anti(%s[jj], %s, N), forall(c, 0, 2 * N, ga[c] == (%s[c] + %s[jj - N][c]) %% 2))' % (_G0, _obs, _HGA, _G0),
+             'implies(not update and not (jj >= N + r and anti(%s[jj], %s, N)), forall(c, 0, 2 * N, ga[c] == %s[c]))' % (_G0, _obs, _HGA),
+             'bits2(%s)' % _G0, 'rows(%s) == 2 * N' % _G0]}),
     'implies(not update, bits(ga, 2 * N))',
 ]
 _meas_outer = ['rows(gs_stb) == 2 * N', 'cols(gs_stb) == 2 * N', 'len(ps_stb) == 2 * N', 'bits2(gs_stb)', 'gram(gs_stb, N)', '0 <= r <= N',
@@ -399,6 +436,13 @@ _det_hints = [
     ('forall_lemma', [('i', '0', '2 * N')], 'selacq_gram', [_sel, _G0, 'N', 'i', 'N']),
     ('forall_lemma', [('i', '0', '2 * N')], 'acqsum_ext', ['ga', 'OrdGRow(%s, %s, N)' % (_sel, _G0), '%s[i]' % _G0, 'N']),
     ('forall_lemma', [('i', '0', '2 * N')], 'acq_bilinear', [_obs, 'ga', '%s[i]' % _G0, 'N']),
+    ('assert_from', 'forall(i, 0, 2 * N, AcqSum(%s[i], %s, N) %% 2 == 0)' % (_G0, _w),
+     ['no_anti(%s, %s, N + r, N)' % (_G0, _obs), '0 <= r <= N',
+      'forall(i, 0, 2 * N, (AcqSum(%s[i], OrdGRow(%s, %s, N), N) - SelAcq(%s, %s, N, %s[i], N)) %% 2 == 0)' % (_G0, _sel, _G0, _sel, _G0, _G0),
+      'forall(i, 0, 2 * N, SelAcq(%s, %s, N, %s[i], N) %% 2 == b2i(N <= i and i < N + N and %s[i - N] != 0))' % (_sel, _G0, _G0, _sel),
+      'forall(i, 0, 2 * N, AcqSum(%s[i], ga, N) == AcqSum(%s[i], OrdGRow(%s, %s, N), N))' % (_G0, _G0, _sel, _G0),
+      'forall(i, 0, 2 * N, (AcqSum(%s[i], %s, N) - AcqSum(%s[i], %s, N) - AcqSum(%s[i], ga, N)) %% 2 == 0)' % (_G0, _w, _G0, _obs, _G0),
+      'forall(u, 0, N, %s[u] == (1 if (u >= r and AcqSum(%s[N + u], %s, N) %% 2 == 1) else 0))' % (_sel, _G0, _obs)]),
     ('lemma', 'symplectic_complete', [_G0, _w, 'N']),
     ('assert_from', 'forall(c, 0, 2 * N, ga[c] == %s[c])' % _obs,
      ['forall(c, 0, 2 * N, %s[c] == 0)' % _w, 'bits(ga, 2 * N)', 'bits(%s, 2 * N)' % _obs]),
@@ -430,6 +474,11 @@ _c06_step = [
                'forall(i, %s, N, same(gs_stb[i], %s[i]) and ps_stb[i] == %s[i] and not anti(%s[i], %s, N)))'
      % (_r0, _pv, _pv, _r0, _obs, _r0, _G0, _P0, _G0, _obs)),
 ]
+_A3p = ('implies(%s <= %s and %s < N, r == %s and ps_stb[%s] == (ps_obs[k] + 2 * out[k]) %% 4 and '
+        'forall(i, %s, N, implies(i != %s, ps_stb[i] == ((%s[i] + %s[%s] + IpowSum(%s[i], %s[%s], N)) %% 4 if anti(%s[i], %s, N) else %s[i]))))'
+        % (_r0, _pv, _pv, _r0, _pv, _r0, _pv, _P0, _P0, _pv, _G0, _G0, _pv, _G0, _obs, _P0))
+_A4p = ('implies(not (%s <= %s and %s < N), r == %s - 1 and ps_stb[r] == (ps_obs[k] + 2 * out[k]) %% 4 and forall(i, %s, N, ps_stb[i] == %s[i]))'
+        % (_r0, _pv, _pv, _r0, _r0, _P0))
 CONTRACTS[U + 'stabilizer_measure'] = dict(
     params=[('gs_stb', 'int2'), ('ps_stb', 'int1'), ('gs_obs', 'int2'), ('ps_obs', 'int1'), ('r', 'int')],
     requires=['cols(gs_obs) % 2 == 0', 'inv_state(gs_stb, ps_stb, r, cols(gs_obs) // 2)', 'bits2(gs_obs)', 'len(ps_obs) == rows(gs_obs)',
@@ -439,19 +488,22 @@ CONTRACTS[U + 'stabilizer_measure'] = dict(
     modifies=['gs_stb', 'ps_stb'], returns=('=gs_stb', '=ps_stb', 'int', 'int1 fresh', 'real'),
     loops={0: dict(var='k', invariant=_meas_outer,
                    hints_end=_c06_step + [
-                       # Hermitian phases of the (new) active stabilizers, from the step assertions above, the Gram structure
-                       # (stabilizers commute) and: commuting strings multiply with an even power of i
+                       # Hermitian phases of the (new) active stabilizers: from the phase part of the step assertions, the Gram
+                       # structure (stabilizers commute) and: commuting strings multiply with an even power of i
+                       ('assert', _A3p), ('assert', _A4p),
                        ('assert_from', 'forall(a, r, N, ps_stb[a] == 0 or ps_stb[a] == 2)',
-                        [h[1] for h in _c06_step] + ['forall(a, %s, N, %s[a] == 0 or %s[a] == 2)' % (_r0, _P0, _P0), 'gram(%s, N)' % _G0,
-                                                     ('forall_lemma', [('i', '0', 'N')], 'ipow_parity', ['%s[i]' % _G0, '%s[%s]' % (_G0, _pv), 'N']),
-                                                     'herms1(ps_obs)', '0 <= k < len(ps_obs)', '0 <= %s < N + %s' % (_pv, _r0),
-                                                     'anti(%s[%s], %s, N)' % (_G0, _pv, _obs)],
-                        [], 'optional'),
+                        [_c06_step[1][1], _A3p, _A4p, 'forall(a, %s, N, %s[a] == 0 or %s[a] == 2)' % (_r0, _P0, _P0), 'gram(%s, N)' % _G0,
+                         ('forall_lemma', [('i', '0', 'N')], 'ipow_parity', ['%s[i]' % _G0, '%s[%s]' % (_G0, _pv), 'N']),
+                         'herms1(ps_obs)', '0 <= k < len(ps_obs)', '0 <= %s < N + %s' % (_pv, _r0), '0 <= %s <= N' % _r0,
+                         'anti(%s[%s], %s, N)' % (_G0, _pv, _obs)],
+                        ['%s <= %s and %s < N' % (_r0, _pv, _pv), 'not (%s <= %s and %s < N)' % (_r0, _pv, _pv)], 'optional'),
                        ('assert_from', 'forall(a, r, N, ps_stb[a] == 0 or ps_stb[a] == 2)',
                         [_c06_step[0][1], 'forall(a, %s, N, %s[a] == 0 or %s[a] == 2)' % (_r0, _P0, _P0),
                          'no_anti(%s, %s, N + %s, N)' % (_G0, _obs, _r0)])]),
-           1: dict(var='jj', invariant=_meas_inner,
-                   hints_head=[('lemma?', 'ipowsum_ext', ['ga', 'OrdGRow(%s, %s, jj - N)' % (_sel, _G0), 'gs_stb[jj - N]', 'N'])])},
+           1: dict(var='jj', invariant=_meas_inner, hints_end=_scan_facts,
+                   hints_head=_len_facts + [('assert', "implies(not update, forall(i, 0, 2 * N, ps_stb[i] == at('loop1.pre', ps_stb)[i]))"),
+                                            ('assert', 'implies(jj >= N, scan(jj, r, N) == jj)')] + [('lemma?', 'ipowsum_ext', ['ga', 'OrdGRow(%s, %s, jj - N)' % (_sel, _G0), 'gs_stb[jj - N]', 'N']),
+                                            ('assert', 'implies(not update and jj >= N, IpowSum(ga, %s[jj - N], N) == IpowSum(OrdGRow(%s, %s, jj - N), %s[jj - N], N))' % (_G0, _sel, _G0, _G0))])},
     hints=dict({'if6.before': [_gram_after_pivot('p', 'q')], 'assert1': _det_hints}, **_swap_hints(6)),
 )
 
@@ -547,6 +599,13 @@ CONTRACTS[U + 'stabilizer_postselection'] = dict(
             ('forall_lemma', [('i', '0', '2 * N')], 'selacq_gram', [_selp, _H0, 'N', 'i', 'N']),
             ('forall_lemma', [('i', '0', '2 * N')], 'acqsum_ext', ['ga', 'OrdGRow(%s, %s, N)' % (_selp, _H0), '%s[i]' % _H0, 'N']),
             ('forall_lemma', [('i', '0', '2 * N')], 'acq_bilinear', [_ob, 'ga', '%s[i]' % _H0, 'N']),
+            ('assert_from', 'forall(i, 0, 2 * N, AcqSum(%s[i], %s, N) %% 2 == 0)' % (_H0, _wp),
+             ['no_anti(%s, %s, N, N)' % (_H0, _ob),
+              'forall(i, 0, 2 * N, (AcqSum(%s[i], OrdGRow(%s, %s, N), N) - SelAcq(%s, %s, N, %s[i], N)) %% 2 == 0)' % (_H0, _selp, _H0, _selp, _H0, _H0),
+              'forall(i, 0, 2 * N, SelAcq(%s, %s, N, %s[i], N) %% 2 == b2i(N <= i and i < N + N and %s[i - N] != 0))' % (_selp, _H0, _H0, _selp),
+              'forall(i, 0, 2 * N, AcqSum(%s[i], ga, N) == AcqSum(%s[i], OrdGRow(%s, %s, N), N))' % (_H0, _H0, _selp, _H0),
+              'forall(i, 0, 2 * N, (AcqSum(%s[i], %s, N) - AcqSum(%s[i], %s, N) - AcqSum(%s[i], ga, N)) %% 2 == 0)' % (_H0, _wp, _H0, _ob, _H0),
+              'forall(u, 0, N, %s[u] == (1 if (u >= 0 and AcqSum(%s[N + u], %s, N) %% 2 == 1) else 0))' % (_selp, _H0, _ob)]),
             ('lemma', 'symplectic_complete', [_H0, _wp, 'N']),
             ('assert_from', 'forall(c, 0, 2 * N, ga[c] == %s[c])' % _ob,
              ['forall(c, 0, 2 * N, %s[c] == 0)' % _wp, 'bits(ga, 2 * N)', 'bits(%s, 2 * N)' % _ob])],
@@ -596,7 +655,7 @@ CONTRACTS[U + 'stabilizer_projection_trace'] = dict(
                        ('assert_from', 'forall(a, r, N, ps_stb[a] == 0 or ps_stb[a] == 2)',
                         [_pt_step[0][1], 'forall(a, %s, N, %s[a] == 0 or %s[a] == 2)' % (_r0, _P0, _P0),
                          'no_anti(%s, %s, N + %s, N)' % (_G0, _obs, _r0)])]),
-           1: dict(var='jj', invariant=_pt_inner, hints_head=_m['loops'][1]['hints_head'])},
+           1: dict(var='jj', invariant=_pt_inner, hints_end=_scan_facts, hints_head=_m['loops'][1]['hints_head'])},
     hints=_m['hints'],
 )
 
